@@ -137,6 +137,8 @@ impl MoveGen {
         for x in 0..self.moves.len() {
             self.moves[x].bitboard &= !mask;
         }
+        // an entry that lost all its moves must not end the iteration early
+        self.set_iterator_mask(self.iterator_mask);
     }
 
     /// Never, ever, iterate this move
@@ -149,6 +151,8 @@ impl MoveGen {
                 found = true;
             }
         }
+        // an entry that lost all its moves must not end the iteration early
+        self.set_iterator_mask(self.iterator_mask);
         found
     }
 
